@@ -1,7 +1,38 @@
 import PeptVerif.Model.Proto
 import PeptVerif.Model.Spans
 import PeptVerif.Spec.Spans
+import PeptVerif.Model.RegexLite
+import PeptVerif.Generated.Proteases
+import PeptVerif.Spec.Proteases
 open Proto Spans
+
+/-- wire form of a RegexLite pattern: items separated by `;`, each `kind:chars` with kind in b,a,n,x,c -/
+def parseItem? (s : String) : Option RegexLite.Item :=
+  match s.splitOn ":" with
+  | [k, cs] =>
+    let cs := cs.toList
+    if k == "b" then some (.behind cs) else if k == "a" then some (.ahead cs)
+    else if k == "n" then some (.aheadNot cs) else if k == "x" then some (.notAhead cs)
+    else if k == "c" then some (.consume cs) else none
+  | _ => none
+
+def parsePattern? (s : String) : Option RegexLite.Pattern :=
+  if s.isEmpty then some [] else (s.splitOn ";").mapM parseItem?
+
+def showNats (l : List Nat) : String := ",".intercalate (l.map toString)
+
+def lookupProtease (name : String) : Option (Option RegexLite.Pattern) :=
+  (Gen.proteases.find? (fun e => e.1 == name.toList)).map (·.2)
+
+/-- names of generated table entries that differ from the hand-typed reference (witness search for
+`proteases_match_reference`) -/
+def tableDiff : List String :=
+  let norm := fun (t : List (List Char × Option RegexLite.Pattern)) =>
+    t.map fun e => (e.1, e.2.map Spec.normalize)
+  let g := norm Gen.proteases
+  let r := norm Spec.referenceTable
+  (g.filter (fun e => !r.contains e)).map (fun e => String.ofList e.1) ++
+  (r.filter (fun e => !g.contains e)).map (fun e => "missing:" ++ String.ofList e.1)
 
 def parseSpan? (s : String) : Option Span :=
   match (s.splitOn ":").mapM (·.toInt?) with
@@ -56,6 +87,16 @@ def step (line : String) : String :=
     | some n, some sites, some mc, some lo, some hi, some semi =>
       showSpans (sortDedupSpans (specSpans n sites mc (lo.getD 1) (hi.getD n) semi))
     | _, _, _, _, _, _ => "bad-op"
+  | ["sites_named", name, text] =>
+    match lookupProtease name with
+    | some (some p) => showNats (RegexLite.sites p text.toList)
+    | some none => "unmodelled"
+    | none => "unknown-protease"
+  | ["sites_pattern", pat, text] =>
+    match parsePattern? pat with
+    | some p => showNats (RegexLite.sites p text.toList)
+    | none => "bad-op"
+  | ["protease_table_diff"] => ";".intercalate tableDiff
   | _ => "bad-op"
 
 def main : IO Unit := runDriver step
